@@ -701,7 +701,7 @@ class DAG(BaseDAG[P, RVDAG]):
                 return ".".join(node.DAG_PREFIX + [id_])
 
             # only the ExecNodes of the SubDAG must be affected by the is_active
-            is_active = False if ARG_NAME_ACTIVATE not in kwargs else kwargs[ARG_NAME_ACTIVATE]
+            is_active = ARG_NAME_ACTIVATE in kwargs
 
             input_uxns = [UsageExecNode(to_subdag_id(uxn.id), uxn.key) for uxn in self.input_uxns]
 
@@ -765,7 +765,7 @@ class DAG(BaseDAG[P, RVDAG]):
                             to_subdag_id(exec_node.active.id), exec_node.active.key
                         )
 
-                    if is_active is not False:
+                    if is_active:
                         if exec_node.active is not None:
                             raise RuntimeError(
                                 f"Trying to set active status for ExecNode {id_} in SubDAG {self.qualname} "
